@@ -30,12 +30,31 @@ entry order; a header with another version digit must be refused.
 (put_bytes/get_bytes, NoSuchFile when absent): has_plan/read_plan see what write_plan stored, remove_plan empties it,
 read_active_revid returns what write_active_revid stored (None included), and the two use two distinct files.
 (i) rebase() iterates graph.iter_topo_order(...) of the plan keys when it calls the rewriter (third round).
+Fourth round: stored-plan-is-whole-plan — RebaseState1.write_plan marshals its replace_map parameter itself (decided before the table, which
+is fail-closed). todo-set-relative-to-new-base — cmd_rebase.run plans find_difference(stop, onto)[0] with the same stop/onto it passes on.
 Does not decide: plan contents and ordering beyond (e) (graph values) — not applicable to static analysis.
 """
 
 
 def run(ctx):
     repo = ctx.repo
+    # ---- fourth round: the stored plan is the whole plan; the revisions to rewrite are counted from the new base -----------
+    fwp = repo.func(RB, "RebaseState1.write_plan")
+    pmap = fwp.args.args[1].arg
+    mars = [c for c in calls_in(fwp) if (call_attr(c) or norm(c.func)) == "marshall_rebase_plan"]
+    reassigned = any(isinstance(a, (ast.Assign, ast.AugAssign)) and any(isinstance(t, ast.Name) and t.id == pmap for t in (a.targets if isinstance(a, ast.Assign) else [a.target])) for a in ast.walk(fwp))
+    whole = len(mars) == 1 and len(mars[0].args) == 2 and isinstance(mars[0].args[1], ast.Name) and mars[0].args[1].id == pmap and not reassigned
+    ctx.check("stored-plan-is-whole-plan", f"{RB}:RebaseState1.write_plan", whole, f"write_plan marshals the `{pmap}` it was given, unfiltered", construct="; ".join(norm(c)[:70] for c in mars), message=f"write_plan does not hand its `{pmap}` argument to marshall_rebase_plan as it is ({'; '.join(norm(c)[:60] for c in mars) or 'no marshalling call'}): entries are dropped or rewritten on the way to disk, read_plan() returns another plan than the one saved — a continued rebase loses the mapping of revisions it still has to refer to")
+    RC_ = "breezy/plugins/rewrite/commands.py"
+    frb = repo.func(RC_, "cmd_rebase.run")
+    plans = [c for c in calls_in(frb) if (call_attr(c) or norm(c.func)) == "generate_simple_plan" and len(c.args) >= 4]
+    diffs = [a for a in ast.walk(frb) if isinstance(a, ast.Assign) and isinstance(a.value, ast.Call) and call_attr(a.value) == "find_difference" and len(a.value.args) == 2]
+    ctx.require(len(plans) == 1 and len(diffs) == 1, f"{RC_}:cmd_rebase.run: generate_simple_plan(..)/find_difference(..) not found")
+    todo_arg, stop_arg, onto_arg = norm(plans[0].args[0]), norm(plans[0].args[2]), norm(plans[0].args[3])
+    tgt0 = diffs[0].targets[0]
+    first_out = norm(tgt0.elts[0]) if isinstance(tgt0, (ast.Tuple, ast.List)) and tgt0.elts else norm(tgt0)
+    ok_onto = first_out == todo_arg and norm(diffs[0].value.args[0]) == stop_arg and norm(diffs[0].value.args[1]) == onto_arg
+    ctx.check("todo-set-relative-to-new-base", f"{RC_}:cmd_rebase.run", ok_onto, f"the set handed to generate_simple_plan is find_difference({stop_arg}, {onto_arg})[0]: the revisions of the branch that the new base does not have", construct=norm(diffs[0])[:90], message=f"cmd_rebase.run plans `{todo_arg}` = `{norm(diffs[0].value)[:70]}` but rebases onto `{onto_arg}`: with --onto older than the upstream tip, revisions the branch shares with upstream after that point are left out of the plan and rewritten revisions keep un-rewritten parents outside the new base")
     fw = repo.func(RB, "marshall_rebase_plan")
     fr = repo.func(RB, "unmarshall_rebase_plan")
     wl = [n.value for n in walk_own(fw) if isinstance(n, ast.Constant) and isinstance(n.value, bytes)]
@@ -283,6 +302,7 @@ def run(ctx):
     ctx.check("replay-parents-first", wrb, topo, "the revisions are rewritten in graph.iter_topo_order of the plan's keys", construct=norm(loops_rb[0].iter), message="rebase() replays the plan in the order of the mapping instead of a topological order of the old revisions: generate_transpose_plan updates merge children in place, so its plans are not parents-first — a revision is rewritten before the rewritten copy of one of its new parents exists (the commit fails or gets the wrong parent)")
 
 MUTANTS = [
+    Mutant("rebase plans against the upstream tip instead of --onto", "breezy/plugins/rewrite/commands.py", "            our_new, onto_unique = repo_graph.find_difference(stop_revid, onto)\n", "            our_new, onto_unique = repo_graph.find_difference(stop_revid, upstream_revision)\n", expect="todo-set-relative-to-new-base"),
     Mutant("rebase replays in plan order", RB, "    todo = list(graph.iter_topo_order(replace_map.keys()))\n", "    todo = list(replace_map)\n", expect="replay-parents-first"),
     Mutant("stored plan is refused as missing", RB, '        if text == b"":\n            raise NoSuchFile(REBASE_PLAN_FILENAME)\n', '        if text != b"":\n            raise NoSuchFile(REBASE_PLAN_FILENAME)\n', expect="state-roundtrip-table"),
     Mutant("active revision: null is returned as an id", RB, '            if text == NULL_REVISION:\n                return None\n            return text\n', '            return text\n', expect="state-roundtrip-table"),
